@@ -23,6 +23,7 @@ LEVEL = {
  "C12": ("bounded symbolic model checking of the MSE synchronisation scan (readSync) for symbolic padding, scan limit and fragmentation. The two-party handshake, cipher negotiation and the encryption policy matrix are not covered yet.", "4 C12"),
  "C19": ("bounded symbolic model checking of every site where a private torrent could start DHT/PEX activity or accept an address (real handlers on a real torrent value; all configuration combinations; arbitrary PEX/DHT addresses)", "4 C19"),
  "C09": ("bounded symbolic model checking of the real piece picker driven through the real torrent message handlers: all peer-event sequences up to the stated length from a fresh downloading torrent, checking every request sent and the download table against the property's statements. Web-seed range assignment is not covered.", "4 C09"),
+ "C14": ("bounded symbolic model checking of the session registry code (real Session.AddTorrent/RemoveTorrent/add/getPort/releasePort/insertTorrent) over all 3-operation sequences with injected failures: port and registry conservation and registry == resume records. Restart equivalence and value round trips through bbolt are not covered.", "4 C14"),
 }
 NOTE = "trusted base: go/packages+go/ssa (x/tools v0.50.0) reading of the source, the engine's instruction semantics (validated by native replay of sampled paths and of every counterexample), z3 4.8.12 / z3 5.1.0 / cvc5 1.0.3; named stubs listed in the evidence file; bounds as stated per harness in the evidence; anything beyond the bounds is outside the claim"
 
